@@ -212,9 +212,10 @@ fn deserialize<'a>(ty: &OwnedDataModelType, data: &'a [u8]) -> Result<(Value, &'
                     // which is also what the encoder expects for it
                     Ok((Value::Array(vec![]), data))
                 }
-                [ty] => {
-                    // Single item, NOT an array
-                    deserialize(ty, data)
+                [single] if !matches!(ty, OwnedDataModelType::Tuple(_)) => {
+                    // Single item of a tuple struct, NOT an array. (A plain 1-tuple or
+                    // `[T; 1]` falls through to the array case, as serde_json renders it.)
+                    deserialize(single, data)
                 }
                 multi => {
                     let mut vec = vec![];
@@ -286,7 +287,14 @@ fn deserialize<'a>(ty: &OwnedDataModelType, data: &'a [u8]) -> Result<(Value, &'
                 }
                 OwnedData::Tuple(vec) => {
                     // everything else becomes an object with one field
-                    let (val, irest) = deserialize(&OwnedDataModelType::Tuple(vec.clone()), rest)?;
+                    // a tuple variant follows the tuple struct conventions
+                    let (val, irest) = deserialize(
+                        &OwnedDataModelType::Struct {
+                            name: schema.name.clone(),
+                            data: OwnedData::Tuple(vec.clone()),
+                        },
+                        rest,
+                    )?;
                     let mut map = Map::new();
                     map.insert(schema.name.to_owned().to_string(), val);
                     Ok((Value::Object(map), irest))
